@@ -17,7 +17,29 @@ type Enc struct {
 	// Widen: encode integers one width wider than necessary where the schema type admits
 	// it (still legal for a reader of the declared type).
 	Widen bool
+	// RecordSites: remember where embedded lengths/counts are written (for C06 inflation).
+	RecordSites bool
+	Sites       []LenSite
+	// Replace, when set, is consulted at every Value call (pre-order index idx); when it
+	// returns true it has written a replacement field itself.
+	Replace func(e *Enc, idx int, t *Type, tag int) bool
+	nvalues int
 }
+
+// LenSite is the byte range of one embedded length: Kind 0 = string1 length byte,
+// 1 = string4 length word, 2 = "tag-0 int" length/count field (head included).
+type LenSite struct {
+	Off, End, Kind int
+}
+
+func (e *Enc) site(off, kind int) {
+	if e.RecordSites {
+		e.Sites = append(e.Sites, LenSite{off, len(e.Buf), kind})
+	}
+}
+
+// NValues is the number of Value calls so far (size of the pre-order index space).
+func (e *Enc) NValues() int { return e.nvalues }
 
 func (e *Enc) Head(ty int, tag int) {
 	if tag < 15 {
@@ -87,10 +109,14 @@ func (e *Enc) F64(v float64, tag int) { e.Head(WDouble, tag); e.u64(math.Float64
 func (e *Enc) Str(s string, tag int) {
 	if len(s) > 255 {
 		e.Head(WString4, tag)
+		o := len(e.Buf)
 		e.u32(uint32(len(s)))
+		e.site(o, 1)
 	} else {
 		e.Head(WString1, tag)
+		o := len(e.Buf)
 		e.Buf = append(e.Buf, byte(len(s)))
+		e.site(o, 0)
 	}
 	e.Buf = append(e.Buf, s...)
 }
@@ -99,12 +125,19 @@ func (e *Enc) Str(s string, tag int) {
 func (e *Enc) Bytes(b []byte, tag int) {
 	e.Head(WSimpleList, tag)
 	e.Head(WByte, 0)
+	o := len(e.Buf)
 	e.Int(int64(len(b)), 0)
+	e.site(o, 2)
 	e.Buf = append(e.Buf, b...)
 }
 
 // Value encodes v of type t under tag (always written: "require" semantics).
 func (e *Enc) Value(t *Type, v any, tag int) {
+	idx := e.nvalues
+	e.nvalues++
+	if e.Replace != nil && e.Replace(e, idx, t, tag) {
+		return
+	}
 	switch t.Kind {
 	case KBool:
 		if v.(bool) {
@@ -131,14 +164,18 @@ func (e *Enc) Value(t *Type, v any, tag int) {
 			return
 		}
 		e.Head(WList, tag)
+		o := len(e.Buf)
 		e.Int(int64(len(l)), 0)
+		e.site(o, 2)
 		for _, x := range l {
 			e.Value(t.Elem, x, 0)
 		}
 	case KMap:
 		m := v.([]KV)
 		e.Head(WMap, tag)
+		o := len(e.Buf)
 		e.Int(int64(len(m)), 0)
+		e.site(o, 2)
 		for _, kv := range m {
 			e.Value(t.Key, kv.K, 0)
 			e.Value(t.Elem, kv.V, 1)
